@@ -114,10 +114,11 @@ type Conn struct {
 	parked   bool     // a Read is blocked with nothing to deliver
 	reads    int      // number of Read calls begun
 	out      []Write
-	werr     error // fail writes with this error
-	hasWDL   bool  // a non-zero write deadline is armed (SetDeadline or SetWriteDeadline)
-	lateW    bool  // the harness' clock says: by the time of the next Write any armed write deadline has passed
-	wblock   bool  // the peer does not read: a Write blocks until the harness lets go or the connection is closed
+	flat     []byte // everything written so far, in one piece
+	werr     error  // fail writes with this error
+	hasWDL   bool   // a non-zero write deadline is armed (SetDeadline or SetWriteDeadline)
+	lateW    bool   // the harness' clock says: by the time of the next Write any armed write deadline has passed
+	wblock   bool   // the peer does not read: a Write blocks until the harness lets go or the connection is closed
 	deadline time.Time
 	hasDL    bool // a non-zero read deadline is armed
 	dlCalls  int
@@ -263,11 +264,9 @@ func (c *Conn) Writes() []Write {
 func (c *Conn) Written() ([]byte, int) {
 	c.mu.Lock()
 	defer c.mu.Unlock()
-	var b []byte
-	for _, w := range c.out {
-		b = append(b, w.Data...)
-	}
-	return b, len(c.out)
+	// flat is appended to on every Write and never rewritten below its length, so handing out the slice
+	// up to the current length (capacity clipped) is safe; callers do not modify it
+	return c.flat[:len(c.flat):len(c.flat)], len(c.out)
 }
 
 // ---- net.Conn ----
@@ -366,6 +365,7 @@ func (c *Conn) Write(p []byte) (int, error) {
 	st := c.log.Add(EvWrite, c.ID, len(p), nil, "")
 	c.mu.Lock()
 	c.out = append(c.out, Write{Stamp: st, Data: append([]byte{}, p...)})
+	c.flat = append(c.flat, p...)
 	c.cond.Broadcast()
 	c.mu.Unlock()
 	return len(p), nil
